@@ -654,6 +654,11 @@ fn spawn_async_ao_list_in_task'''),
         ('plain-operator-strips-tabs', 'brush-parser/src/parser/peg.rs', "                    remove_tabs: false,", "                    remove_tabs: true,"),
         ('backslash-in-the-delimiter-does-not-count-as-quoting', 'brush-parser/src/parser/peg.rs', [("specific_operator(\"<<\") here_tag:here_tag() doc:[_] closing_tag:here_tag() {\n                let requires_expansion = !here_tag.to_str().contains(['\\'', '\"', '\\\\']);", "specific_operator(\"<<\") here_tag:here_tag() doc:[_] closing_tag:here_tag() {\n                let requires_expansion = !here_tag.to_str().contains(['\\'', '\"', '\"']);")]),
     ],
+    'U63': [
+        ('backslash-no-longer-leaves-the-quick-path-in-a-here-document', 'brush-core/src/expansion.rs', "            &['$', '`', '\\\\']\n        } else {", "            &['$', '`']\n        } else {"),
+        ('tilde-no-longer-leaves-the-quick-path', 'brush-core/src/expansion.rs', "            &['$', '`', '\\\\', '\\'', '\\\"', '~', '{']", "            &['$', '`', '\\\\', '\\'', '\\\"', '{']"),
+        ('contexts-swapped', 'brush-core/src/expansion.rs', "let expansion_chars: &[char] = if self.heredoc_mode {", "let expansion_chars: &[char] = if !self.heredoc_mode {"),
+    ],
     'U62': [
         ('implied-redirection-put-in-front-of-the-suffix', 'brush-parser/src/parser/peg.rs', "            if let Some(l) = &mut c.suffix {\n                l.0.push(r);", "            if let Some(l) = &mut c.suffix {\n                l.0.insert(0, r);"),
         ('implied-redirection-replaces-the-redirections-of-a-compound-command', 'brush-parser/src/parser/peg.rs', "        if let Some(l) = l {\n            l.0.push(r);\n        } else {", "        if let Some(_) = l {\n            *l = Some(ast::RedirectList(vec![r]));\n        } else {"),
